@@ -565,8 +565,16 @@ def run_property(prop, tier, seed, budget_s=None):
         from . import hard
         n_self += hard.selftest()          # the modular-interval solver against brute force
     bins = []
+    build_errors = []
     for profile, feats in prop.BUILDS[tier]:
-        bins.append((build_name(profile, feats), B.build(profile, feats)))
+        try:
+            bins.append((build_name(profile, feats), B.build(profile, feats)))
+        except B.BuildError as e:
+            # one configuration does not compile: the others are still monitored (a violation found there is still a
+            # violation); without one the run ends inconclusive, never "held"
+            build_errors.append("build %s failed: %s" % (build_name(profile, feats), str(e)[-1500:]))
+    if not bins:
+        raise B.BuildError("\n".join(build_errors))
     t_build = time.time() - t0
     if budget_s is None:
         budget_s = float(os.environ.get("VERIF_BUDGET_S", "0") or 0) or (getattr(prop, "BUDGET", {"quick": 25, "thorough": 420})[tier])
@@ -579,6 +587,7 @@ def run_property(prop, tier, seed, budget_s=None):
     st = Stats()
     for r in results:
         st.merge(r)
+    st.errors += build_errors
     return finish(prop, tier, seed, st, t0, {"oracle_selftest_cases": n_self, "build_s": round(t_build, 1),
                                              "builds": [b for b, _ in bins]})
 
